@@ -28,12 +28,12 @@ Proof. intros pc H. unfold pieceCodes in H. cbn in H. unfold EMPTY. intuition li
 Lemma at_off_board : forall b f r, on_board f r = false -> at_ b f r = EMPTY.
 Proof. intros. unfold at_. rewrite H. reflexivity. Qed.
 
-Lemma occupied_testbit : forall p k, WF p ->
+Lemma occupied_testbit_B : forall p k, BoardOK p ->
   N.testbit (occupiedBB p) k = (k <? 64) && negb (getPiece p k =? EMPTY).
 Proof.
   intros p k H. unfold occupiedBB. rewrite N.lor_spec.
   change (whiteBB p) with (colorBB p true). change (blackBB p) with (colorBB p false).
-  rewrite !(colorBB_testbit p _ k H). pose proof (WF_pieces_le_12 p k H) as Hle.
+  rewrite !(BoardOK_color p _ k H). pose proof (BoardOK_le12 p k H) as Hle.
   destruct (k <? 64); [|reflexivity]. cbn [andb].
   destruct (le12_cases _ Hle) as [E|[E|[E|[E|[E|[E|[E|[E|[E|[E|[E|[E|E]]]]]]]]]]]]; rewrite E; reflexivity.
 Qed.
@@ -43,7 +43,7 @@ Section StepAttack.
 Variable p : position.
 Variable tbl : square -> N.
 Variable offs : list (Z * Z).
-Hypothesis HWF : WF p.
+Hypothesis HWF : BoardOK p.
 Hypothesis tbl_spec : forall s, s < 64 ->
   tbl s < 2 ^ 64 /\ forall t, t < 64 -> N.testbit (tbl s) t = step_rel offs s t.
 
@@ -58,14 +58,14 @@ Proof.
     unfold step_rel in H1. apply existsb_exists in H1. destruct H1 as [d [Hd He]].
     apply andb_true_iff in He. destruct He as [He1 He2]. apply Z.eqb_eq in He1, He2.
     exists d. split; [exact Hd|]. rewrite <- He1, <- He2. rewrite <- (getPiece_at p k Hk64).
-    rewrite (ptBB_testbit p pc k HWF Hpc) in H2. apply andb_true_iff in H2. apply H2.
+    rewrite (BoardOK_ptBB p pc k HWF Hpc) in H2. apply andb_true_iff in H2. apply H2.
   - intros [d [Hd He]]. apply N.eqb_eq in He.
     destruct (on_board (zf s + fst d) (zr s + snd d)) eqn:Hob.
     + destruct (sq_of_coords _ _ Hob) as [Hk64 [Hf [Hr _]]].
       exists (sq_of (zf s + fst d) (zr s + snd d)). rewrite N.land_spec. apply andb_true_iff. split.
       * rewrite (Htb _ Hk64). unfold step_rel. apply existsb_exists. exists d. split; [exact Hd|].
         rewrite Hf, Hr, !Z.eqb_refl. reflexivity.
-      * rewrite (ptBB_testbit p pc _ HWF Hpc). apply andb_true_iff. split; [apply N.ltb_lt; exact Hk64|].
+      * rewrite (BoardOK_ptBB p pc _ HWF Hpc). apply andb_true_iff. split; [apply N.ltb_lt; exact Hk64|].
         apply N.eqb_eq. rewrite <- (at_getPiece p _ _ Hob). exact He.
     + rewrite (at_off_board _ _ _ Hob) in He. symmetry in He. apply pieceCodes_nonzero in He; [contradiction | exact Hpc].
 Qed.
@@ -94,7 +94,7 @@ Proof.
 Qed.
 
 (** the Spec's ray walk and the engine's ray list visit the same squares *)
-Lemma ray_first_firstHit : forall p, WF p -> forall k x y dx dy,
+Lemma ray_first_firstHit : forall p, BoardOK p -> forall k x y dx dy,
   on_board x y = true -> In (dx, dy) (rook_dirs ++ bishop_dirs) ->
   ray_first (squares p) k x y dx dy =
   match firstHit (occupiedBB p) (rayList k x y dx dy false) with
@@ -126,7 +126,7 @@ Proof.
     by (symmetry; exact Hob').
   rewrite Ex, Ey. fold (sq_of (x + dx) (y + dy)). cbn [firstHit].
   destruct (sq_of_coords _ _ Hob') as [Hs64 _].
-  rewrite occb_testbit, (occupied_testbit p _ H).
+  rewrite occb_testbit, (occupied_testbit_B p _ H).
   replace (sq_of (x + dx) (y + dy) <? 64) with true by (symmetry; apply N.ltb_lt; exact Hs64). cbn [andb].
   rewrite (at_getPiece p _ _ Hob').
   destruct (getPiece p (sq_of (x + dx) (y + dy)) =? EMPTY); cbn [negb]; [|reflexivity].
@@ -156,7 +156,7 @@ Qed.
 
 Section SliderAttack.
 Variable p : position.
-Hypothesis HWF : WF p.
+Hypothesis HWF : BoardOK p.
 
 Lemma slider_attack_bridge : forall (atk : square -> N -> N) (dirs : list (Z * Z)) (d1 d2 d3 d4 : Z * Z) pcA pcB s,
   dirs = [d1; d2; d3; d4] -> incl dirs allDirs ->
@@ -169,11 +169,11 @@ Proof.
   set (occ := occupiedBB p).
   set (Q := fun t => t < 64 /\ (getPiece p t = pcA \/ getPiece p t = pcB)).
   assert (HQocc : forall t, Q t -> occb occ t = true).
-  { intros t [Ht Hp]. rewrite occb_testbit. unfold occ. rewrite (occupied_testbit p t HWF).
+  { intros t [Ht Hp]. rewrite occb_testbit. unfold occ. rewrite (occupied_testbit_B p t HWF).
     apply andb_true_iff. split; [apply N.ltb_lt; exact Ht|]. apply negb_true_iff, N.eqb_neq.
     destruct Hp as [E|E]; rewrite E; apply pieceCodes_nonzero; assumption. }
   assert (HbbQ : forall t, N.testbit (N.lor (ptBB p pcA) (ptBB p pcB)) t = true <-> Q t).
-  { intro t. rewrite N.lor_spec, (ptBB_testbit p pcA t HWF HA), (ptBB_testbit p pcB t HWF HB). unfold Q.
+  { intro t. rewrite N.lor_spec, (BoardOK_ptBB p pcA t HWF HA), (BoardOK_ptBB p pcB t HWF HB). unfold Q.
     destruct (N.ltb_spec t 64); cbn [andb]; rewrite ?orb_true_iff, ?N.eqb_eq; intuition (try lia; try discriminate). }
   destruct (coords_of_sq s Hs) as [Hob _].
   apply eq_true_iff_eq. rewrite nz_exists, existsb_exists. split.
@@ -215,7 +215,7 @@ End SliderAttack.
 Lemma is_piece_eqb : forall w k x, is_piece w k x = (x =? mk_piece w k).
 Proof. reflexivity. Qed.
 
-Theorem sqAttacked_spec : forall p wtm sq, WF p -> sq < 64 ->
+Theorem sqAttacked_spec_B : forall p wtm sq, BoardOK p -> sq < 64 ->
   sqAttackedT wtm p sq (occupiedBB p) = attacked_by (squares p) (negb wtm) (zf sq) (zr sq).
 Proof.
   intros p wtm sq H Hs. unfold sqAttackedT, attacked_by.
@@ -258,10 +258,41 @@ Proof.
   destruct tN, tK, tP, tB, tR; reflexivity.
 Qed.
 
+Lemma occupied_testbit : forall p k, WF p ->
+  N.testbit (occupiedBB p) k = (k <? 64) && negb (getPiece p k =? EMPTY).
+Proof. intros p k H. apply occupied_testbit_B, WF_BoardOK, H. Qed.
+
+Theorem sqAttacked_spec : forall p wtm sq, WF p -> sq < 64 ->
+  sqAttackedT wtm p sq (occupiedBB p) = attacked_by (squares p) (negb wtm) (zf sq) (zr sq).
+Proof. intros p wtm sq H Hs. apply sqAttacked_spec_B; [apply WF_BoardOK, H | exact Hs]. Qed.
+
 (** * inCheck = in_checkb *)
 Lemma all_coords_ok : forallb (fun c => on_board (fst c) (snd c)) all_coords = true
                       /\ forallb (fun s => existsb (fun c => (fst c =? zf s)%Z && (snd c =? zr s)%Z) all_coords) allSquares = true.
 Proof. split; vm_compute; reflexivity. Qed.
+
+(** for any colour w with exactly one king on a BoardOK board *)
+Theorem kingAttacked_spec_B : forall p w, BoardOK p ->
+  (exists s, s < 64 /\ getPiece p s = mk_piece w King) ->
+  (forall s1 s2, s1 < 64 -> s2 < 64 -> getPiece p s1 = mk_piece w King -> getPiece p s2 = mk_piece w King -> s1 = s2) ->
+  sqAttackedT w p (kingSq p w) (occupiedBB p) = in_checkb (squares p) w.
+Proof.
+  intros p w H Hex Huniq. unfold in_checkb.
+  destruct (kingSq_spec_B p w H Hex) as [Hk64 Hkp].
+  assert (Hfind : find_king (squares p) w = Some (zf (kingSq p w), zr (kingSq p w))).
+  { unfold find_king. destruct (find _ all_coords) as [[f r]|] eqn:Ef.
+    - apply find_some in Ef. destruct Ef as [Hin Hk]. cbn [fst snd] in Hk.
+      destruct all_coords_ok as [Hob _]. rewrite forallb_forall in Hob. specialize (Hob _ Hin). cbn [fst snd] in Hob.
+      destruct (sq_of_coords f r Hob) as [Hs [Hf [Hr _]]].
+      rewrite is_piece_eqb in Hk. apply N.eqb_eq in Hk. rewrite (at_getPiece p f r Hob) in Hk.
+      rewrite <- (Huniq _ _ Hs Hk64 Hk Hkp). rewrite Hf, Hr. reflexivity.
+    - exfalso. destruct all_coords_ok as [_ Hall]. pose proof (sweep1 _ Hall _ Hk64) as Hex'.
+      apply existsb_exists in Hex'. destruct Hex' as [[f r] [Hin He]]. cbn [fst snd] in He.
+      apply andb_true_iff in He. destruct He as [He1 He2]. apply Z.eqb_eq in He1, He2. subst f r.
+      pose proof (find_none _ _ Ef _ Hin) as Hn. cbn [fst snd] in Hn.
+      rewrite is_piece_eqb, <- (getPiece_at p _ Hk64), Hkp, N.eqb_refl in Hn. discriminate. }
+  rewrite Hfind. apply sqAttacked_spec_B; assumption.
+Qed.
 
 Theorem inCheck_spec : forall p, WF p -> inCheck p = in_checkb (squares p) (whiteMove p).
 Proof.
